@@ -41,7 +41,11 @@ fn csp_rule(r: &mut Rng) -> String {
     opts.push(if blanket {
         "csp".to_string()
     } else {
-        format!("csp={}", r.pick(DIRECTIVES))
+        if r.chance(2, 3) {
+            format!("csp={}", r.pick(DIRECTIVES))
+        } else {
+            format!("csp={}-src {}", r.pick(&["script", "img", "frame", "connect"]), r.pick(&["'none'", "'self'", "*", "data:"]))
+        }
     });
     if r.chance(1, 5) {
         opts.push(format!("tag={}", r.pick(gen::TAGS)));
@@ -237,7 +241,7 @@ fn main() {
     let mut r = Rng::new(a.seed);
     let mut cs = Cases::new(&a.out, "Generated C15_Model");
     let mut sm = Summary::default();
-    sm.rule = "random lists of 1-9 csp rules (8 directives incl. case twins, blanket `csp`, exceptions with and without directive, tags, domain=, party, important, badfilter, duplicates and exception twins) mixed with ordinary rules, random enabled tag sets, optimised or not, x requests of all 19 type strings (half of them document/subdocument) on 4 hosts; non-trivial = document/subdocument request with at least one matching active csp rule".into();
+    sm.rule = "random lists of 1-9 csp rules (8 fixed + 16 composed directives incl. case twins, blanket `csp`, exceptions with and without directive, tags, domain=, party, important, badfilter, duplicates and exception twins) mixed with ordinary rules, random enabled tag sets, optimised or not, x requests of all 19 type strings (half of them document/subdocument) on 4 hosts; non-trivial = document/subdocument request with at least one matching active csp rule".into();
     let n = 1600 * a.scale;
     let mut mask_seen: BTreeSet<u32> = BTreeSet::new();
     for _ in 0..n {
